@@ -6,6 +6,7 @@
 
 #include <atomic>
 #include <condition_variable>
+#include <future>
 #include <memory>
 #include <mutex>
 #include <shared_mutex>
@@ -123,6 +124,17 @@ namespace
           for(auto& t : th) t.join();
           long sum = 0; for(long x : res) sum += x; (void)sum;
         }
+      }
+      break;
+    case 9:   // promise/future hand-over of a heap object (libstdc++ futex wait)
+      {
+        std::vector<std::promise<std::unique_ptr<Box>>> prom{size_t(nthreads)};
+        std::vector<std::future<std::unique_ptr<Box>>> fut;
+        for(auto& p : prom) fut.push_back(p.get_future());
+        std::vector<std::thread> th;
+        for(int t = 0; t < nthreads; ++t) th.emplace_back([&prom, t]() { std::unique_ptr<Box> b(new Box); b->a = t; b->v.assign(4, long(t)); sim::yield("work"); prom[size_t(t)].set_value(std::move(b)); });
+        for(int t = 0; t < nthreads; ++t) { std::unique_ptr<Box> b = fut[size_t(t)].get(); if(b->a != t || b->v.size() != 4) sim::fail("SELFTEST", "future delivered the wrong object"); }
+        for(auto& t : th) t.join();
       }
       break;
     case 108: // master reads a worker's result before joining it
